@@ -920,3 +920,19 @@ def ok_match_capture_copy(src):
 class _Holder:
     def __init__(self, item):
         self.item = item
+
+
+def alarm_source_method_computed_name(src):
+    getattr(src, "set" + src.kind)(1)
+
+
+def ok_source_getter_as_value(src):
+    f = src.getBounds
+    b = f()
+    b.append(1)
+
+
+def alarm_source_draw_as_value(src):
+    pen = src.glyphs[0].getPen()
+    d = src.glyphs[1].draw
+    d(pen)
